@@ -15,7 +15,7 @@ type jsonWorld struct {
 }
 
 // followTags: "the container then continues to satisfy all its other guarantees".
-var followTags = []string{"C01", "C02", "C03", "C04", "C05", "C06", "C09", "C10", "C15"}
+var followTags = []string{"C01", "C02", "C03", "C04", "C05", "C06", "C07", "C09", "C10", "C15"} // (C07: the shape walk; comparator calls are counted in the C07 world only)
 
 func loadVariant(s Subject, variant int, b []byte) error {
 	switch variant % 3 {
@@ -339,6 +339,11 @@ func (w *jsonWorld) Exec(p *Plan, st *RunStats) *Violation {
 					o.Fail("C11", "restart-differs-from-live", "reloaded container %s differs from the live one %s (document %s)", g, l, b)
 					return
 				}
+				// "same iteration order for ordered containers": the reloaded container's own iterators, both ways
+				if bad := walkBothWays(f); bad != "" {
+					o.Fail("C11", "restart-iteration", "after reloading %s into a fresh container: %s", b, bad)
+					return
+				}
 				// same subsequent Pop/Dequeue sequence: drain the old live container and a second reload
 				if f2 := reload(); f2 != nil {
 					if d1, d2 := s.Drain(), f2.Drain(); d1 != d2 {
@@ -384,6 +389,10 @@ func (w *jsonWorld) Exec(p *Plan, st *RunStats) *Violation {
 					return
 				}
 				s.CheckLoaded(o, "C12")
+				if bad := walkBothWays(s); bad != "" && !o.Failed() {
+					// "continues to satisfy all its other guarantees": the loaded container iterates like any other
+					o.Fail("C12", "loaded-iteration", "after %s: %s", op, bad)
+				}
 			})
 			if o.V != nil && o.V.Oracle == "unjudged-stop" {
 				o.V = nil
